@@ -423,6 +423,14 @@ fn validate(ctx: &Context<impl Channel>) -> Result<(), Error> {
         p_out,
         ..
     } = ctx;
+    if circ.max_reg_count == 0 {
+        // `Circuit::validate` indexes its register set without noticing that it is empty.
+        return Err(match circ.output_regs.first() {
+            Some(out) => CircuitError::InvalidOutput(*out),
+            None => CircuitError::EmptyOutputs,
+        }
+        .into());
+    }
     circ.validate()?;
     let Some(expected_inputs) = circ.input_regs.get(p_own) else {
         return Err(Error::PartyDoesNotExist);
